@@ -5,8 +5,22 @@ namespace Dyce
 
 def insertI (x : Int) : List Int → List Int
   | [] => [x]
-  | y :: ys => if x < y then x :: y :: ys else y :: insertI x ys
+  | y :: ys => if x ≤ y then x :: y :: ys else y :: insertI x ys
 def sortI (l : List Int) : List Int := l.foldr insertI []
+
+/-- values-only reading of the substitution loop -/
+def denExpand (p : Int → Bool) (denE : W (List Int)) (replace : Bool) : Nat → List Int → W (List Int)
+  | 0, vs => pure vs
+  | k + 1, vs =>
+    vs.foldl
+      (fun acc v => do
+        let outs ← acc
+        if p v then do
+          let ev ← denE
+          let sub ← denExpand p denE replace k ev
+          pure (outs ++ (if replace then [] else [v]) ++ sub)
+        else pure (outs ++ [v]))
+      (pure [])
 
 mutual
 def denAll : List RTree → W (List Int)
@@ -44,6 +58,12 @@ def den : RTree → W (List Int)
     match resolve sorted.length which with
     | .error _ => pure []
     | .ok idxs => pure (idxs.filterMap fun j => sorted[j]?)
+  | .subst p e replace maxDepth src => do
+    let vs ← den src
+    denExpand p (den e) replace maxDepth vs
+  | .substMap p f maxDepth src => do
+    let vs ← den src
+    pure (if maxDepth = 0 then vs else vs.map fun v => if p v then f v else v)
 end
 
 end Dyce
